@@ -453,7 +453,7 @@ Definition decode_block (l : list N) : option (nat * (nat * list (N * (N * N))))
 (* ------------------------------------------------------------------------------------------ *)
 (* kind 3: loop level (harness/src/c07_loop.rs; model coq/C07/Loop.v). The real `start()` future of a
    TCP / WebSocket connection is polled by hand against a bare yamux peer.
-   case  = 3 tr n fbmask dead0 cap nops (op a b f c)*
+   case  = 3 tr n fbmask dead0 cap nops (op a b f c)*     (tr: transport + 4 * hold)
    trace = 1 (cnt kind* ){n}  record0  record*      record = rc early_done early_mgr (cnt kind* ){n} mgr state arm
    (record0: what happens when the loop is polled for the first time) *)
 
@@ -519,10 +519,12 @@ Definition loop_trace (n : nat) (fbmask dead0 : N) (ops : list lcase) : list N :
 
 (* `hold`: the case runs with a long substream-open timeout, b = 4 (the remote never answers and nobody
    waits for the timeout) is allowed and b = 3 (wait for the timeout) is not *)
-Definition p_lop (hold : bool) : parser lcase :=
+Definition p_lop (hold quic : bool) : parser lcase :=
   let* op := pN in let* a := pN in let* b := pN in let* f := pN in let* c := pN in
   if (((1 <=? op) && (op <=? 7)) || (op =? 9)) &&
      (if (op =? 1) || (op =? 2) then if hold then negb (b =? 3) else negb (b =? 4) else true) &&
+     (* QUIC: whether an outbound open that times out is answered is C08's business (F-C08a) *)
+     negb ((op =? 1) && (b =? 3) && quic) &&
      (* races: an inbound substream only together with "every handle dropped" (else it would be served
         while the connection ends: the notes would depend on the schedule); with pending negotiations
         possible (hold cases) only that combination *)
@@ -531,8 +533,9 @@ Definition p_lop (hold : bool) : parser lcase :=
 
 Definition decode_loop (l : list N) : option (nat * (N * (N * list lcase))) :=
   pall (let* tr := pN in let* n := pN in let* fb := pN in let* d0 := pN in let* cap := pN in
-        let* ops := plist (p_lop (N.testbit tr 1)) in
-        if (tr <? 4) && (1 <=? n) && (n <=? 4) && (fb <? 16) && (d0 <? 16) && (1 <=? cap) && (cap <=? 64) &&
+        (* tr: bits 0-1 transport (0 TCP, 1 WebSocket, 2 QUIC), bit 2 hold *)
+        let* ops := plist (p_lop (N.testbit tr 2) (tr mod 4 =? 2)) in
+        if (tr <? 8) && (tr mod 4 <? 3) && negb (tr =? 6) && (1 <=? n) && (n <=? 4) && (fb <? 16) && (d0 <? 16) && (1 <=? cap) && (cap <=? 64) &&
            (N.of_nat (length ops) <=? 40)
         then pret (N.to_nat n, (fb, (d0, ops))) else pfail) l.
 
